@@ -112,8 +112,8 @@ def c11_cases(tier, seed):
             hist = []
             depth = rng.choice([1, 2, 2, 3])
         elif r < 0.72:
-            # clocks near 100: the fifty-move rule cuts inside the tree
-            f = rng.choice(sparse + corner).split()
+            # clocks near 100: the fifty-move rule cuts inside the tree (also where a mate would land on the hundredth half-move)
+            f = rng.choice(sparse + corner + mates + mates).split()
             f[4] = str(rng.choice([95, 96, 97, 98, 99]))
             f[3] = '-'
             fen = ' '.join(f)
